@@ -38,6 +38,9 @@ FIRST = {
     "r6_c03_a1_closure_dedup_key_aliases_eof": "MISSED (an integer key that aliases `(rule, dot, Eof)` with `(rule, dot+1, first declared terminal)`: the declaration order of terminals was never shuffled, and the repeated nonterminal of the 'same rule at two dot positions' pattern was never followed by a token in one alternative and by nothing in the other)",
     "r6_c14_a1_heap_address_in_lex_error": "MISSED (no text with an outer attribute whose brackets balance in number but not in kind)",
     "r6_c14_b1_heap_address_in_lex_error_again": "MISSED (the same mechanism, written independently by a second agent)",
+    "r8_c14_a1_unreachable_warning_to_stderr": "MISSED (no fault on the process's stdout/stderr: a failing write to fd 2 was never simulated)",
+    "r8_c03_a1_first_bitset_index_mod_64": "MISSED (no grammar with more than 64 terminals; the widest had 36)",
+    "r8_c03_b1_natural_order_leading_zero_ties": "MISSED (no two names differing only in leading zeros of a digit run)",
     "r4_c03_a2_memoised_item_closures_partial_on_cycles": "MISSED (indirect left recursion only through 2-3 nonterminals, and never a cycle member used outside the cycle with the same follower terminal as inside)",
 }
 
